@@ -19,6 +19,7 @@ import time
 import zlib
 import common
 import pyfacts
+import srcobl
 from gens import optables
 
 from yaql.language import exceptions, expressions, factory, utils
@@ -26,7 +27,7 @@ from yaql import legacy
 
 ID = 'C02'
 LEAN_MODULES = ['Yaql.Props.C02', 'Yaql.Props.C02Table', 'Yaql.Props.C02Levels', 'Yaql.Props.C02Order',
-                'Yaql.Props.C02Iso', 'Yaql.Props.C02Gen', 'Yaql.Props.C03Parse']
+                'Yaql.Props.C02Iso', 'Yaql.Props.C02Gen', 'Yaql.Props.C03Parse'] + srcobl.modules('C02')   # Props/SrcOpTable
 REQUIRED_THEOREMS = [
     'Yaql.Props.C02.parse_sound', 'Yaql.Props.C02.parse_roundtrip', 'Yaql.Props.C02.parse_unique',
     'Yaql.Props.C02.yield_injective', 'Yaql.Props.C02.parse_complete', 'Yaql.Props.C02.parse_iff',
@@ -43,7 +44,7 @@ REQUIRED_THEOREMS = [
     'Yaql.Props.C02Gen.default_tuple', 'Yaql.Props.C02Gen.legacy_tuple',
     'Yaql.Props.C02Gen.defaultDelegates_tuple', 'Yaql.Props.C02Gen.legacyDelegates_tuple',
     'Yaql.Props.C02Gen.default_ops', 'Yaql.Props.C02Gen.legacy_ops',
-]
+] + srcobl.theorems('C02')
 TRUSTED = ["ply's LALR(1) table construction and precedence-based conflict resolution (differentially tested only)",
            'the real ply lexer is used to tokenise (the lexer model belongs to C01/C03/C16)']
 ASSUMPTIONS = ['custom tables are built through insert_operator only; new symbols are ASCII and differ from the '
@@ -57,7 +58,9 @@ UN_TYPES = (OT.PREFIX_UNARY, OT.SUFFIX_UNARY)
 
 
 def generate():
-    return pyfacts.run(['OpTables'])
+    info = dict(pyfacts.run(['OpTables']))
+    info.update(srcobl.generate('C02'))      # re-translate YaqlFactory.insert_operator
+    return info
 
 
 # ---------------------------------------------------------------- engines
